@@ -237,6 +237,18 @@ def check_split(ctx, tc, v, best):
     params = decompose(ctx, tc, obj, v, best, 'split', case)
     if params is None:
         return False
+    # a copy of the value (copy.deepcopy, as the REPL snapshots do; duplicate(), as DUP does) is the same value: it splits into a pair denoting the same thing
+    import copy as _copy
+    for how, mk in (('deepcopy', lambda: _copy.deepcopy(obj)), ('duplicate', lambda: type(obj)(obj.item.duplicate()) if hasattr(obj, 'item') else _copy.copy(obj))):
+        try:
+            p2 = mk().to_parameters()
+            same = (tc.model_name(p2['entrypoint']), p2['value']) == (tc.model_name(params['entrypoint']), params['value'])
+            why = 'gives %s, the original %s' % (p2, params)
+        except Exception as e:   # noqa
+            same, why = False, 'raised %r' % (e,)
+        if not same:
+            ctx.mismatch('C13:to_parameters:copy-of-the-value:%s' % how, 'parameter %s, value %s: to_parameters of a %s of the value %s' % (michelson(T), v, how, why), case)
+            return False
     vc = value_class(tc, best)
     coll = tc.coll_suffix()
     import copy
